@@ -649,7 +649,24 @@ pub fn build_fast_check_type_graph<'a>(
       }
     } else {
       // use the items from the cache
-      final_result.extend(package.cache_items);
+      //
+      // When the cached run found diagnostics, the cache only holds the
+      // modules analyzed up to the first one, which need not include every
+      // entrypoint. Like a cold run, surface the failure on each entrypoint.
+      let mut cache_items = package.cache_items;
+      if cache_items.iter().any(|(_, r)| r.is_err()) {
+        for entrypoint in &package.entrypoints {
+          if !cache_items.iter().any(|(s, _)| s == entrypoint) {
+            cache_items.push((
+              entrypoint.clone(),
+              Err(vec![FastCheckDiagnostic::Cached {
+                specifier: entrypoint.clone(),
+              }]),
+            ));
+          }
+        }
+      }
+      final_result.extend(cache_items);
     }
 
     if !errors.is_empty() {
